@@ -190,7 +190,7 @@ let fuel = nat_of_int 1500
      Fix   the lines of one reply are joined with an extra blank (self.response.push(' ')): /repo today;
      Fix2  joined as read: /repo once patches/0019-fix-read-response-no-extra-blank.diff is committed there.
    Flip this one constant to [Fix2] together with the known_findings.txt edit described in NOTES-c15ml.md. *)
-let repo_reader : variant = Fix
+let repo_reader : variant = Fix2
 let repo_reader_name = match repo_reader with Cur -> "cur" | Fix -> "fix" | Fix2 -> "fix2"
 
 let handle (c : Sexp.t) : string =
